@@ -264,6 +264,12 @@ func C15(r *Run) *core.Report {
 				ff = x.Fn.(*ssa.Function)
 				free = len(x.Bindings) > 0
 			}
+			if m := boundMethod(ff); m != nil {
+				ff = m // method expression / method value: the finalizer is that method
+			}
+			if ff != nil && ff.Origin() != nil {
+				ff = ff.Origin() // instantiation of a generic function: its declared body
+			}
 			if ff == nil {
 				rep.Undecided("C15.J3", fn(ctor)+" finalizer function", r.P.InstrPos(finCall), "finalizer is not a function literal")
 			} else {
